@@ -1534,6 +1534,14 @@ class XMLOutputFormattingWrapper:
         if seconds:
             suite.time += seconds
 
+    @staticmethod
+    def _safe_str(value):
+        # ``str()`` of an exception runs arbitrary code, which may fail.
+        try:
+            return str(value)
+        except Exception:
+            return '<unprintable %s object>' % type(value).__name__
+
     def writeXMLReports(self, properties={}):
 
         timestamp = datetime.now().isoformat()
@@ -1579,7 +1587,7 @@ class XMLOutputFormattingWrapper:
 
                     try:
                         excType, excInstance, tb = testCase.error
-                        errorMessage = str(excInstance)
+                        errorMessage = self._safe_str(excInstance)
                         stackTrace = ''.join(traceback.format_tb(tb))
                     finally:  # Avoids a memory leak
                         del tb
@@ -1596,7 +1604,7 @@ class XMLOutputFormattingWrapper:
 
                     try:
                         excType, excInstance, tb = testCase.failure
-                        errorMessage = str(excInstance)
+                        errorMessage = self._safe_str(excInstance)
                         stackTrace = ''.join(traceback.format_tb(tb))
                     except UnicodeEncodeError:
                         errorMessage = 'Could not extract error str ' \
